@@ -73,6 +73,12 @@ static std::string vocabulary_program(Rng& r) {
     if (r.chance(0.3)) std::swap(first, second);
     s += first + "print fr(1, 2);\n" + (r.chance(0.5) ? "print fr(\"a\", 3);\n" : "") + second + "print fr(1, 2);\nprint fr(null, 5);\n";
     if (r.chance(0.6)) return s; }   // on its own: an ill-typed statement further down would have the whole unit refused before anything runs
+  if (r.chance(0.05)) { // well-formed on its own: the lock of an outer traversal after an inner traversal of the same table
+    s += "vt = tab(3, 1);\nforall fa in vt loop\n  forall fb in vt loop\n    print fb;\n  end loop;\n  " + std::string(r.pick(std::vector<std::string>{"do vt.concat(fa);", "do vt.delete(0);", "vt = tab(9, 2);", "do vt.insert(0, 7);"})) + "\n  print fa;\nend loop;\n";
+    return s; }
+  if (r.chance(0.05)) { // errors that carry no position, as the last statement of the text
+    s += std::string(r.pick(std::vector<std::string>{"import nosuchmodule;", "import nosuchmodule;\n/* tail */", "import nosuchmodule;  \n\n", "include \"/nonexistent/file.bloc\";", "forall fa in vt loop vt = tab(1, 1); end loop;", "begin function zz() return integer is begin return 1; end; end;"})) + (r.chance(0.5) ? "\n" : "");
+    return s; }
   for (int i = 0; i < n; ++i) {
     std::string v = value(r, (int)r.range(1, 3));
     switch (r.below(19)) {
